@@ -628,7 +628,7 @@ def rewrite_map_collect(b, boundary, key, rel, base_line, log):
             # (Verus supports only variables as closure parameters; the desugaring is the language's own meaning of the pattern)
             closure = '|p_r22| { let (%s) = p_r22; %s }' % (mp.group(1).strip(), mp.group(2).strip())
             log.append({'rule': 'R22', 'where': '%s:%d' % (rel, base_line + b.count('\n', 0, m.start())), 'text': '|(%s)| e -> |p_r22| { let (%s) = p_r22; e }' % (mp.group(1).strip(), mp.group(1).strip())})
-        m2 = re.match(r'\s*\.\s*collect\s*\(\s*\)', b[k:])
+        m2 = re.match(r'\s*\.\s*collect\s*(?:::\s*<[^;(){}]*>\s*)?\(\s*\)', b[k:])
         if not m2:
             raise ExtractError('fn %s: .into_iter().map(..) not followed by .collect() (R21 does not apply)' % key)
         b = b[:m.start()] + '%s(%s, %s)' % (boundary, m.group(1), closure) + b[k + m2.end():]
@@ -1227,8 +1227,10 @@ class Assembler:
             for lv, lty in c.let_types.items():
                 # R15: type ascription on a `let` whose type verus! cannot infer (rustc re-checks the ascribed type)
                 b, n15 = re.subn(r'\blet\s+(mut\s+)?%s\s*=' % re.escape(lv), lambda m: 'let %s%s: %s =' % (m.group(1) or '', lv, lty), b)
-                if n15 == 0 and re.search(r'\blet\s+(mut\s+)?%s\s*:' % re.escape(lv), b):
-                    continue  # the source already ascribes a type: nothing to add
+                if n15 == 0:
+                    # the source already ascribes a type, or the local was renamed: nothing to add (if the type then cannot be
+                    # inferred, rustc says so and the function is a tool limit)
+                    continue
                 if n15 != 1:
                     raise ExtractError('lost anchor: fn %s: let %s occurs %d times' % (key, lv, n15))
                 log.append({'rule': 'R15', 'where': '%s:%d' % (c.src, base_line), 'text': 'let %s: %s' % (lv, lty)})
@@ -1320,9 +1322,25 @@ class Assembler:
         n_loops = len(find_loops(body))
         n_annotated = len([n for n, cls in c.loops.items() if any(x.kind == 'invariant' for x in cls)])
         n_clos, n_clos_ann = count_closures(b)
+        btoks = rsscan.tokenize(body)
+        bsig = rsscan.sig(btoks)
+        cn = set()
+        for k in range(len(bsig) - 1):
+            if btoks[bsig[k]][0] == 'ident' and btoks[bsig[k + 1]][1] == '(':
+                nm = btoks[bsig[k]][1]
+                pv = btoks[bsig[k - 1]][1] if k > 0 else ''
+                if pv == '.':
+                    cn.add('.' + nm)
+                elif pv == '::' and k > 1 and btoks[bsig[k - 2]][0] == 'ident':
+                    cn.add(btoks[bsig[k - 2]][1] + '::' + nm)
+                elif pv == '::':
+                    cn.add('?::' + nm)
+                else:
+                    cn.add(nm)
+        call_names = sorted(cn)
         self.functions.append({'key': key, 'name': c.name, 'ctx': c.ctx, 'src': '%s:%d' % (c.src, fn_line),
                                'loops': n_loops, 'loops_with_invariant': n_annotated,
-                               'closures': n_clos, 'closures_annotated': n_clos_ann,
+                               'closures': n_clos, 'closures_annotated': n_clos_ann, 'calls': call_names,
                                'clauses': [{'id': x.cid, 'tags': x.tags, 'kind': x.kind} for x in c.clauses] +
                                           [{'id': x.cid, 'tags': x.tags, 'kind': 'loop-' + x.kind} for cls in c.loops.values() for x in cls],
                                'safety_tags': c.safety_tags})
@@ -1489,6 +1507,29 @@ class Assembler:
             else:
                 raise ExtractError('unknown directive //@%s' % d)
 
+    def add_canary_all(self):
+        """A second canary with EVERY broadcast axiom / lemma of the assembled file switched on (the hand-written one only has the
+        module-level list): `ensures false` must still be unprovable.  Inserted before `fn main`."""
+        text = '\n'.join(self.lines)
+        names = []
+        for m in re.finditer(r'\bbroadcast\s+proof\s+fn\s+([A-Za-z_][A-Za-z0-9_]*)', text):
+            if m.group(1) not in names:
+                names.append(m.group(1))
+        for m in re.finditer(r'\bbroadcast\s+group\s+([A-Za-z_][A-Za-z0-9_]*)', text):
+            if m.group(1) not in names:
+                names.append(m.group(1))
+        if not names:
+            return
+        idx = next((i for i in range(len(self.lines) - 1, -1, -1) if self.lines[i].startswith('fn main')), len(self.lines))
+        block = ['verus! {', 'pub mod canary_all_mod {', 'use super::*;',
+                 '/// MUST FAIL with every broadcast axiom and lemma of this file in scope (generated)',
+                 'pub proof fn canary_all()',
+                 '    ensures false,  //@canary',
+                 '{',
+                 '    broadcast use {%s};' % ', '.join(names),
+                 '}', '}', '} // verus!']
+        self.lines[idx:idx] = block
+
     def result(self):
         return '\n'.join(self.lines) + '\n'
 
@@ -1499,6 +1540,7 @@ class Assembler:
 def assemble(unit, outdir, demote=None):
     a = Assembler(unit, demote)
     a.run_template(os.path.join(VERIF, 'contracts', unit + '.unit.rs'))
+    a.add_canary_all()
     os.makedirs(outdir, exist_ok=True)
     rs = os.path.join(outdir, unit + '.rs')
     with open(rs, 'w') as f:
